@@ -58,6 +58,12 @@ def cases(tier, seed):
             yield {"desc": desc, "farmer": far, "kind": kind, "n": n,
                    "mode": mode, "req": req, "shuffle": shuffle, "reload": rl,
                    "policy": pol}
+            if desc == "attrs" and far != "sampler" and pol in (None, (None, None)):
+                # an extra constant given for this run only (overrides the
+                # runner's stored constant)
+                yield {"desc": desc, "farmer": far, "kind": kind, "n": n,
+                       "mode": mode, "req": req, "shuffle": shuffle,
+                       "reload": rl, "policy": pol, "sowconst": {"k": 5}}
 
 
 def worker_init():
@@ -205,6 +211,8 @@ def check_case(case):
         if far == "sampler":
             return farmer.sample_combos(n, verbosity=0)
         kw = dict(verbosity=0)
+        if case.get("sowconst"):
+            kw["constants"] = dict(case["sowconst"])
         if far == "runner-df":
             kw["to_df"] = True
         if far.startswith("harv"):
@@ -271,13 +279,16 @@ def check_case(case):
         if far == "sampler":
             crop.sow_samples(n, verbosity=0)
         elif kind == "grid":
-            crop.sow_combos(dcombos, shuffle=case["shuffle"], verbosity=0)
+            crop.sow_combos(dcombos, shuffle=case["shuffle"], verbosity=0,
+                            constants=case.get("sowconst"))
         elif kind == "mix":
             crop.sow_combos(dcombos,
                             cases=[dict(zip(fn_args, c)) for c in dcases],
-                            shuffle=case["shuffle"], verbosity=0)
+                            shuffle=case["shuffle"], verbosity=0,
+                            constants=case.get("sowconst"))
         else:
-            crop.sow_cases(fn_args, dcases, verbosity=0)
+            crop.sow_cases(fn_args, dcases, verbosity=0,
+                           constants=case.get("sowconst"))
         B = crop.num_batches
         rl = case["reload"]
         gcrop = xyz.Crop(name="k", parent_dir=d) if rl in (1, 3) else crop
